@@ -85,16 +85,58 @@ CLAIMS['C18'] = dict(
     technique='Verus contracts on extracted get_binding/get_env_vars_tuple/op_index with information-flow labels on messages',
 )
 
+CLAIMS['C05'] = dict(
+    text=('PARTIAL, narrow (literal layer): for ALL strings s, the printer\'s real escape_quotes followed by the tokenizer\'s real '
+          'string scanner returns s (full UTF-8 round-trip lemma over the two contracts, using vstd\'s proved UTF-8 encoder); a field '
+          'name is printed bare only if it has the tokenizer\'s bareword shape. Every render arm, comment placement and the fixed-point '
+          'clause are NOT covered - a defect there is not seen by this check.'),
+    design_ref='DESIGN.md §5 C05',
+    note=('Trusted: Verus/Z3 and vstd::utf8; String::from_utf8 / char::is_ascii_alphabetic specs; the callers of escapequoted position '
+          'the iterator on a char boundary (just after the ASCII opening quote) - stated as a requires, not discharged; extraction rules in evidence.'),
+    technique='Verus contracts on extracted escape_quotes/is_bareword/escapequoted + round-trip lemma',
+)
+CLAIMS['C08'] = dict(
+    text=('DECIDED modulo std models: against a spec-level POSIX word reader written from the standard (validated against /bin/sh and bash '
+          'on all strings <= 5 over the property\'s alphabet by the agent\'s one-off script), for ALL strings the real single- and '
+          'double-quote escapers yield text the shell reads back as exactly one word equal to the original with nothing interpreted; the '
+          'real env, flags and exec converters emit, for every value tree, exactly the in-order concatenation of the per-field text '
+          '(scalars once each, skipped fields contribute the empty string, so nothing is swallowed or merged).'),
+    design_ref='DESIGN.md §5 C08',
+    note=('Trusted: Verus/Z3; std str::replace(char,&str) behaves like the verified loop model; Display of i64/f64/bool yields one plain word '
+          '(uninterpreted); write!/writeln! call sites replaced by per-call-site stubs that carry the literal pieces of the format string (R2); '
+          'for-loops with continue rewritten to indexed while-loops (R13); exec: the converse (valid tuple => Ok) is not proved.'),
+    technique='Verus contracts on extracted escapers and converters against a POSIX word-reader oracle',
+)
+CLAIMS['C11'] = dict(
+    text=('PARTIAL: (a) position stepping: the real StrIter/OffsetStrIter next() advances offset by one, a line feed increments line and '
+          'resets column to 1, anything else increments column, and by induction after k steps the reported line/column/offset are the '
+          'true ones (columns count bytes); Position::from reports them. (b) string literals: the real scanner decodes exactly the '
+          'documented escapes and preserves every other byte, including bytes >= 0x80, and stops at the first unescaped quote; terminates. '
+          'Token recognisers capturing the position before consuming, the ordered alternation (longest operator), and whitespace/comment '
+          'insensitivity are NOT covered.'),
+    design_ref='DESIGN.md §5 C11',
+    note=('Trusted: Verus/Z3, vstd::utf8; a str is at most isize::MAX bytes; String::from_utf8 spec; StrIter::seek (unused by ucg) breaks '
+          'the representation invariant and is excluded.'),
+    technique='Verus contracts + induction lemma on extracted StrIter/OffsetStrIter and escapequoted',
+)
+CLAIMS['C13'] = dict(
+    text=('DECIDED at collector + verdict + directory-walk level: the collector\'s success flag is the AND of all recorded entries, its '
+          'counter their number, its summary one line per entry; the assert hook records exactly one entry per call - (desc, ok) for a '
+          'well-formed tuple and a failing entry for anything else; do_validate returns true iff the build succeeded and every entry '
+          'recorded DURING THAT CALL is ok, and prints exactly that call\'s entries; visit_ucg_files returns the AND of all verdicts at any '
+          'depth and test_command exits non-zero iff some verdict was false. Assertions evaluated before a build error are not logged (stated).'),
+    design_ref='DESIGN.md §5 C13',
+    note=('Trusted: Verus/Z3; FileBuilder::build only appends to the collector (assumed); RefCell borrows never conflict (R11); directory '
+          'iteration, clap and path operations are stubs; counter < i32::MAX; a directory listing error mid-way is excluded by a stated hypothesis.'),
+    technique='Verus contracts on extracted AssertCollector, Builtins::assert, do_validate, visit_ucg_files over a ghost log',
+)
+
 NOT_APPLICABLE = {
     'C03': 'unit not completed yet (Val->format value mappers planned, DESIGN §5 C03)',
-    'C05': 'unit not completed yet (literal escaping round trip planned, DESIGN §5 C05)',
     'C06': 'unit not completed yet (run-time constraint check planned, DESIGN §5 C06)',
     'C07': 'relational completeness between the whole type checker and the whole evaluator; no per-function contract within reach of Verus/Kani states "accepts what runs" (DESIGN §5 C07)',
-    'C08': 'unit not completed yet (shell escaping and env/flags/exec converters planned, DESIGN §5 C08)',
     'C09': 'quantifies over file-system trees, working directories and import graphs; mechanisms are a generic &mut-AST walker, std::path and RefCell caches re-entered through recursive VM::run - not expressible as function contracts the installed verifiers can check (DESIGN §5 C09)',
-    'C11': 'unit not completed yet (position stepping and literal decoding planned, DESIGN §5 C11)',
     'C12': 'well-formedness, escaping and namespaces are produced by the xml-rs dependency; the property is about those bytes and an independent parser (DESIGN §5 C12)',
-    'C13': 'unit not completed yet (assert collector and verdict planned, DESIGN §5 C13)',
     'C15': 'unit not completed yet (format value->Val mappers planned, DESIGN §5 C15)',
     'C16': 'hyperproperty over runs of a process (sets/orders of files) through cross-file memoisation; needs the whole compiler specified as a function of the file system (DESIGN §5 C16)',
     'C17': 'diagnostic positions are plumbed through ~120 translator push sites and parser-combinator error contexts; needs end positions the AST does not carry and relates two runs (DESIGN §5 C17)',
